@@ -18,6 +18,7 @@ const MAX_INBOUND_QOS2: usize = 8;
 pub(super) struct RuntimeState {
     pub(super) session_resumed: bool,
     pub(super) keepalive_interval: Duration,
+    pub(super) configured_keepalive: Duration,
     pub(super) send_quota: u16,
     pub(super) max_send_quota: u16,
     pub(super) maximum_packet_size: Option<u32>,
@@ -31,6 +32,7 @@ impl RuntimeState {
         Self {
             session_resumed: false,
             keepalive_interval,
+            configured_keepalive: keepalive_interval,
             send_quota: u16::MAX,
             max_send_quota: u16::MAX,
             maximum_packet_size: None,
